@@ -624,7 +624,7 @@ class Session(Gen):
         r = self.rng.random()
         if r < 0.35:
             # the server hangs up right after CloseOk: both arrive in one read
-            self.op("feed c:" + b"".join(f.bytes for f in tail).hex() + " " + self.rng.choice(["eof", "err"]))
+            self.op("feed c:" + b"".join(f.bytes for f in tail).hex() + " " + self.rng.choice(["eof", "err", "err:timedout", "err:interrupted"]))
             self.op("ev stream r")
         else:
             self.feed(tail)
@@ -682,7 +682,7 @@ class Session(Gen):
         ws = []
         for _ in range(rng.randint(0, 4)):
             r = rng.random()
-            ws.append("wb" if r < 0.25 else ("err" if r < 0.03 else "w:%d" % rng.choice([1, 2, 3, 7, 8, 9, 12, 100, 100000])))
+            ws.append(rng.choice(["err", "err:timedout", "err:interrupted", "err:other"]) if r < 0.03 else ("wb" if r < 0.25 else "w:%d" % rng.choice([1, 2, 3, 7, 8, 9, 12, 100, 100000])))
         self.op("wscript " + " ".join(ws) if ws else "wscript")
         self.op("ev stream w" if rng.random() < 0.7 else "write")
 
